@@ -84,9 +84,16 @@ def _lock(name):
 
 def _gc(prefix, keep):
     """remove stale build dirs of the same variant"""
+    now = time.time()
     for d in os.listdir(BUILD):
-        if d.startswith(prefix + "-") and d != keep and os.path.isdir(os.path.join(BUILD, d)):
-            shutil.rmtree(os.path.join(BUILD, d), ignore_errors=True)
+        p = os.path.join(BUILD, d)
+        if d.startswith(prefix + "-") and d != keep and os.path.isdir(p):
+            try:
+                age = now - os.path.getmtime(os.path.join(p, ".done"))
+            except OSError:
+                age = now - os.path.getmtime(p)
+            if age > 6 * 3600:   # never remove a build another process may still be using
+                shutil.rmtree(p, ignore_errors=True)
 
 
 def objects(variant="plain", hooks=True):
@@ -202,6 +209,7 @@ if __name__ == "__main__":
     for w in what:
         if w == "native":
             print(libvp())
+            print(native("libvpref", ["vpref.c"], shared=True))
         else:
             print(snapraid(w))
     print("%.2fs" % (time.time() - t))
